@@ -419,3 +419,39 @@ Proof.
   match goal with H : (_ =? base) = true |- _ => apply Z.eqb_eq in H end.
   repeat split; assumption.
 Qed.
+
+(* ---- lookups on the master's table (Net/Mesh.v get_address) ---- *)
+Lemma dict_get_in d k v : NoDup (keys d) -> (dict_get d k = Some v <-> In (k, v) d).
+Proof.
+  induction d as [|[k0 v0] t IH]; cbn [dict_get keys map fst In]; intro Hn.
+  - split; [discriminate|intros []].
+  - inversion Hn as [|? ? Hn0 Ht]; subst. destruct (k0 =? k) eqn:E.
+    + apply Z.eqb_eq in E. subst k0. split.
+      * intro H. injection H as <-. auto.
+      * intros [H|H]; [injection H as <-; reflexivity|]. exfalso. apply Hn0. exact (in_keys _ _ _ H).
+    + apply Z.eqb_neq in E. rewrite (IH Ht). split; [auto|]. intros [H|H]; [injection H as -> _; contradiction|exact H].
+Qed.
+
+(* lookup_address on the master: the leased address, or -2 exactly when the ID holds no lease *)
+Theorem lookup_address_spec d id :
+  Inj d -> (forall a, In (id, a) d -> get_address d id true = a)
+           /\ ((forall a, ~ In (id, a) d) -> get_address d id true = -2).
+Proof.
+  intros [Hn _]. unfold get_address. split.
+  - intros a Hin. apply (dict_get_in d id a Hn) in Hin. rewrite Hin. reflexivity.
+  - intro Hno. destruct (dict_get d id) as [a|] eqn:E; [|reflexivity].
+    exfalso. apply (Hno a). apply (dict_get_in d id a Hn). exact E.
+Qed.
+
+(* lookup_node_id on the master: the ID holding the address, or -2 exactly when nobody holds it *)
+Theorem lookup_node_id_spec d a :
+  Inj d -> (forall id, In (id, a) d -> get_address d a false = id)
+           /\ ((forall id, ~ In (id, a) d) -> get_address d a false = -2).
+Proof.
+  intros [Hn Hi]. unfold get_address. split.
+  - intros id Hin. destruct (dict_find_val d a) as [k|] eqn:E.
+    + exact (Hi _ _ _ (find_val_some _ _ _ E) Hin).
+    + exfalso. exact (find_val_none _ _ E _ Hin).
+  - intro Hno. destruct (dict_find_val d a) as [k|] eqn:E; [|reflexivity].
+    exfalso. exact (Hno k (find_val_some _ _ _ E)).
+Qed.
